@@ -74,6 +74,13 @@ RULE = ("cells = family x size x FD option (full product inside the bound); ever
         "interior catalogue point a three times in a row, then at the first interior point b, then at a again (a,a,a,b,a), each result "
         "judged by the same oracle against the Richardson derivative of the object's logd at that point (points whose first "
         "evaluation was already wrong are left out: the pass reports dependence on the history of evaluations only); "
+        "facet 'identity of the evaluation point': on EVERY object of every cell (FD off and on) the float64 vectors with as many entries as "
+        "the evaluated variable that the object HOLDS (reachable through instance attributes / lists / tuples / dicts of library and harness "
+        "objects: likelihood data, mean / location / scale / shape / rate vectors, geometry grids, PDE grids ...; fixed walk order, first "
+        "2 distinct objects in the quick tier, 4 in the thorough tier) are used as evaluation points twice: a copy of the array (one more "
+        "interior point, ordinary oracle) and, where the copy was fine, the held array object ITSELF - gradient(held) must equal the same "
+        "Richardson derivative of the object's logd as gradient(held.copy()), and the held array must be unchanged afterwards "
+        "('input-altered'); arrays at which logd is not finite / kinked / has no trustworthy derivative are left out and counted; "
         "a cell is non-trivial when at least one gradient vector was returned and compared (not only refusals)")
 BOUND = {
     "quick": "plain families dim 1..3, MRFs 1-D N=2..4 and 2-D 2x2/3x3, composites with parameter dim 3..4 (range dim 4..5, images 3x1 and 2x2; Lognormal-noise model/geometry product at dim 3 only); "
@@ -86,12 +93,12 @@ BOUND = {
              "{fresh, stored} (+ view for the 6 with a flip piece), Gaussian noise; 5 priors (gaussian, gmrf, cauchy, uniform, "
              "userdefined) x 10 likelihood configurations x {fresh, stored} (+ view for 3) Posteriors; 3 priors x (7 member lists direct "
              "+ 2 via joint) x {fresh, stored} (+ view for 2 lists) MultipleLikelihoodPosteriors; 3 x 2 stacked joints; repetition a,a,a,b,a "
-             "on every object of every cell; 1 of 3 value catalogues",
+             "on every object of every cell; held arrays as evaluation points: first 2 per object (copy + the object itself); 1 of 3 value catalogues",
     "thorough": "plain families dim 1..6, MRFs 1-D N=2..7 and 2-D 2x2..4x4, composites parameter dim 2..6 (images up to 2x3); "
                 "3 generic points + basis; 3 integer-valued inside points + up to 5 outside in every representation; FD off/on; "
                 "same member alphabet of the composites and boundary points (all faces; all corners up to 3 bounded coordinates, 4 corner "
                 "patterns above) as in the quick tier; aliasing facet at parameter dim 2..6 with all 14 priors for the Posterior and "
-                "Gaussian + Lognormal noise for the Likelihood, otherwise as in the quick tier; repetition a,a,a,b,a on every object; "
+                "Gaussian + Lognormal noise for the Likelihood, otherwise as in the quick tier; repetition a,a,a,b,a on every object; held arrays as evaluation points: first 4 per object; "
                 "1 of 3 value catalogues per run (seed selects)",
 }
 ASSUMPTIONS = [
@@ -133,6 +140,11 @@ ASSUMPTIONS = [
     "caller's point alone",
     "repetition facet: the reference derivative of a point is computed once (at its first evaluation) and re-used for the repeated "
     "evaluations; the sequence is fixed (a,a,a,b,a after the whole programme of the object), longer or other interleavings are not covered",
+    "identity facet: only plain float64 1-D writeable ndarrays of exactly the variable's size found by walking __dict__ (depth <= 6) of "
+    "library / harness objects are used (arrays hidden in closures of user callables, CUQIarray, 2-D / integer / (1,1) arrays and arrays of "
+    "another size - e.g. the data of a non-square likelihood - are not); the point must pass the ordinary oracle as a copy first, and logd "
+    "must be smooth there (second-difference quotient at h=1e-3 and h/4: a jump that does not shrink with h = kink -> left out), so "
+    "locations of Laplace / LMRF and bounds of Uniform are left out; only the evaluation point is aliased, one array at a time",
     "outside the support: any result with at least one non-finite entry, or a refusal, is accepted",
     "representations of the evaluation point: only integer-valued points with entries in a window of 7 consecutive "
     "integers are re-represented (so that all forms denote exactly the same point); a refusal (e.g. TypeError for a list) "
@@ -173,6 +185,8 @@ def cells(tier, seed):
         for lvl in reversed(mrf_levels):
             for fam in ("gmrf", "cmrf", "lmrf"):
                 out.append({"kind": "dist", "family": fam, "level": lvl, "fd": fd, "cat": k, "npts": npts})
+    for c in out:
+        c["held"] = 2 if quick else 4       # facet "identity of the evaluation point": held arrays used per object
     out.extend(_reassign.cells(tier, seed))     # E1 add-on: use -> assign -> use histories on one live object
     return out
 
@@ -243,6 +257,7 @@ def eval_cell(cell):
     op_out = "gradient-outside-support-fd" if fd else "gradient-outside-support"
     op_bnd = "gradient-on-boundary-fd" if fd else "gradient-on-boundary"
     op_rep = "gradient-repeated-fd" if fd else "gradient-repeated"
+    op_held = "gradient-at-held-array-fd" if fd else "gradient-at-held-array"
     compared = 0
     if cell["kind"] == "dist":
         gens = _generators(cell)
@@ -361,6 +376,40 @@ def eval_cell(cell):
                     if o["status"] in ("ok", "bad"):
                         compared += 1
                         res.evaluations += 1
+        # facet "identity of the evaluation point": the point handed to gradient() IS an array the object holds (the data of a
+        # likelihood, a mean / location / shape / scale vector, a grid ...): gradient(held) == gradient(held.copy()) == derivative of
+        # the object's logd at these values, and the held array is unchanged afterwards.  The copy is judged first as one more
+        # interior point; only where it is fine is the held array itself handed over (this pass reports dependence on identity only).
+        nvar = len(case.inside[0][1]) if case.inside else 0
+        for path, held in (E.held_arrays(case.obj, nvar, limit=cell.get("held", 2)) if nvar else []):
+            res.count("held-array:found")
+            xh = held.copy()
+            if not np.all(np.isfinite(xh)) or E.kink_at(case.obj, xh):
+                res.count("held-array:left-out:logd-kinked-or-not-finite-there")
+                continue
+            cache = {}
+            res.transitions += 1
+            o = E.observe(case, "held-copy", xh, fd, FD_EPS, cache=cache)
+            if o["status"] == "bad" and tell:
+                o["msg"] += " {%s}" % fkey
+            rec.add(rcomp, op_in, rkeys, rfac, o)
+            _tally(res, component, "in", o)
+            if o["status"] in ("ok", "bad"):
+                compared += 1
+                res.evaluations += 1
+            if o["status"] != "ok":
+                res.count("held-array:left-out:copy-%s" % o["status"])
+                continue
+            res.transitions += 1
+            o = E.observe(case, "held", xh, fd, FD_EPS, cache=cache, given=held)
+            if o["status"] == "bad":
+                o["msg"] = ("evaluation point IS the array the object holds as %s (a copy of it gives the derivative of logd): %s"
+                            % (path, o["msg"])) + (" {%s}" % fkey if tell else "")
+            rec.add(rcomp, op_held, rkeys, rfac, o)
+            _tally(res, component, "held", o)
+            if o["status"] in ("ok", "bad"):
+                compared += 1
+                res.evaluations += 1
         # repetition facet: on the same live object (after everything above) the gradient is evaluated again THREE times in
         # a row at one interior point a, then at another point b, then at a again; every single result is judged by the
         # same oracle (raises, or the derivative of the object's logd at that point).  Points whose first evaluation was
@@ -433,6 +482,8 @@ def _tally(res, component, where, o, xrep=None):
             res.outcomes.add("%s:in:equal%s" % (component, "" if o.get("shape_exact") else "(reshaped)"))
         elif where == "rep":
             res.outcomes.add("%s:repeated:equal" % component)
+        elif where == "held":
+            res.outcomes.add("%s:held-array:equal" % component)
         elif where == "bnd":
             if o["branch"] == "finite":
                 res.count("ok-bnd:logd-finite:one-sided-derivative" + (":signed-inf-entries" if o["infinite_entries"] else ""))
